@@ -8,7 +8,8 @@
     peek COND                   TrapSet::peek_state
     catch SIG | take | takeif SIG
     deliver SIG                 signal sent to the process, collected by Env::poll_signals
-    run N                       run_traps_for_caught_signals with `$?` = N (bodies: `probe <c>; st 7`)
+    run N                       run_traps_for_caught_signals with `$?` = N; the body of `c<N>` is chosen by N / 1000:
+                                0 `probe N; st 7`, 1 `probe N; return 3`, 2 `probe N; exit 4`, 3 `probe N; false`
   Observation per operation: `r=<result>` and, for every condition whose view changed,
   `NAME=<current>/<parent>/<disposition><blocked>`.
   A line starting with `script ` is a script-level case (see `scriptLine`).
@@ -100,8 +101,21 @@ def delta (old new : List String) : List String :=
   (condTable.zip (old.zip new)).filterMap fun ((name, _), (o, n)) =>
     if o == n then none else some s!"{name}={n}"
 
-/-- bodies used by the harness: `probe <c>; st 7` -/
-def body7 (_ : Nat) (_ : Int) : BodyResult := { exit := 7 }
+/-- bodies used by the harness, by `c / 1000`: `probe c; st 7`, `probe c; return 3`,
+    `probe c; exit 4`, `probe c; false` -/
+def body7 : Body := fun c _ t =>
+  (match c / 1000 with
+   | 1 => { exit := 0, divert := some (.ret (some 3)) }
+   | 2 => { exit := 0, divert := some (.exit (some 4)) }
+   | 3 => { exit := 1 }
+   | _ => { exit := 7 }, t)
+
+def showDivert : Option Divert → String
+  | none => "-"
+  | some (.ret st) => s!"ret{st.getD (-1)}"
+  | some (.exit st) => s!"exit{st.getD (-1)}"
+  | some (.interrupt st) => s!"int{st.getD (-1)}"
+  | some .other => "other"
 
 def opResult (st : State) : DOp → String
   | .op (.setAction c a o ov) => showErr (setAction st c a o ov).2
@@ -118,21 +132,22 @@ def opResult (st : State) : DOp → String
     | .catch => if (st.sys.selectMask.getD st.sys.blocked) s = false then s!"caught:{condName s}" else "stuck"
   | .runTraps e =>
     let r := runTrapsForCaughtSignals body7 false st.traps e
-    let runs := r.2.2.map fun (s, c) => s!"{condName s}:{c}@{e}"
-    s!"runs={",".intercalate runs};exit={r.2.1}"
+    let runs := r.runs.map fun (s, c) => s!"{condName s}:{c}@{e}"
+    s!"runs={",".intercalate runs};exit={r.exit};div={showDivert r.divert}"
   | _ => "-"
 
 def dstep (st : State) : DOp → State
   | .op o => step st o
-  | .runTraps e => { st with traps := (runTrapsForCaughtSignals body7 false st.traps e).1 }
+  | .runTraps e => { st with traps := (runTrapsForCaughtSignals body7 false st.traps e).traps }
 
-/-- Spec verdict for a `run`: the bodies run are exactly the pending command traps, once each, and
-    `$?` is preserved; a second run right after runs nothing -/
+/-- Spec verdict for a `run`: the bodies run followed by the bodies still pending are exactly the
+    bodies that were pending, once each (whatever the bodies end in); `$?` is preserved; a run not
+    cut short by a divert leaves nothing pending -/
 def runVerdict (st : State) (e : Nat) : Option String :=
   let r := runTrapsForCaughtSignals body7 false st.traps e
-  if r.2.2 ≠ pendingCommands st.traps then some "runs"
-  else if r.2.1 ≠ (e : Int) then some "exit-status"
-  else if (runTrapsForCaughtSignals body7 false r.1 e).2.2 ≠ [] then some "ran-twice"
+  if r.runs ++ pendingCommands r.traps ≠ pendingCommands st.traps then some "runs"
+  else if r.exit ≠ (e : Int) then some "exit-status"
+  else if r.divert = none ∧ pendingCommands r.traps ≠ [] then some "left-pending"
   else none
 
 def parseInit (t : String) : Option (List Nat) :=
@@ -210,9 +225,138 @@ def scriptLine (ws : List String) : String :=
     let o := scriptSpec k m (s :: sts); s!"{o}\t={o}"
   | _ => "bad-case\t-"
 
+/-! Script-level cases with several trapped signals pending at the same boundary:
+    `multi <layout> <mode> <second> SIG:K SIG:K [SIG:K]`.  The script sets the traps, then runs a
+    function (layout 0; 2 = the signals are sent inside a nested brace group) or a dot script
+    (layout 1) whose body is `probe 1; RAISE; probe 2; st 5; probe 3`, then `probe 4`, optionally a
+    second RAISE, `probe 5`, `probe 6`.  RAISE sends all the trapped signals to the shell at once
+    (mode 0: a built-in that leaves `$?` = 6; mode 1: `(kill …; kill …)`, `$?` = 0).  Action kinds:
+    P `probe T`, R `probe T; return 3`, E `probe T; exit 4`, F `probe T; false`,
+    N `probe T; trap 'probe T+500' SIG` (T = signal number + 200).  The interpreter below mirrors
+    `Command::execute` (run the command, then `run_traps_for_caught_signals`, diverts merged by
+    `max`), the function / dot-script call (catches `Return`), and the end of the script. -/
+
+inductive Cmd where
+  | probe (n : Nat)
+  | st (n : Nat)
+  | raise (sigs : List Nat) (m : Nat)
+  | group (l : List Cmd)
+  | call (l : List Cmd)
+
+structure SS where
+  traps : TrapMap
+  exit : Int := 0
+  trace : List String := []
+
+def YashModel.Trap.Divert.rank : Divert → Nat
+  | .other => 0
+  | .ret _ => 2
+  | .interrupt _ => 3
+  | .exit _ => 4
+
+def YashModel.Trap.Divert.payload : Divert → Option Int
+  | .other => none
+  | .ret s => s
+  | .interrupt s => s
+  | .exit s => s
+
+def optLe : Option Int → Option Int → Bool
+  | none, _ => true
+  | some _, none => false
+  | some a, some b => a ≤ b
+
+/-- derived `Ord::max` on `Divert` -/
+def YashModel.Trap.Divert.max (a b : Divert) : Divert :=
+  if a.rank < b.rank then b
+  else if b.rank < a.rank then a
+  else if optLe a.payload b.payload then b else a
+
+def mergeDivert : Option Divert → Option Divert → Option Divert
+  | m, none => m
+  | none, t => t
+  | some a, some b => some (a.max b)
+
+/-- trap bodies of the `multi` scripts: `c = kind * 1000 + tag`, `tag % 500 - 200` = the signal -/
+def scriptBody : Body := fun c _ t =>
+  let tag := c % 1000
+  match c / 1000 with
+  | 1 => ({ exit := 0, divert := some (.ret (some 3)) }, t)
+  | 2 => ({ exit := 0, divert := some (.exit (some 4)) }, t)
+  | 3 => ({ exit := 1 }, t)
+  | 4 =>
+    let sys : Sys := { disp := fun _ => .catch, blocked := fun _ => true }
+    ({ exit := 0 }, (setAction { sys := sys, traps := t } (tag % 500 - 200) (.command (tag + 500)) 0 false).1.traps)
+  | _ => ({ exit := 0 }, t)
+
+/-- the hook of `Command::execute`: pending traps run after every command -/
+def hook (s : SS) (main : Option Divert) : SS × Option Divert :=
+  let r := runTrapsForCaughtSignals scriptBody false s.traps s.exit
+  let lines := r.runs.map fun (_, c) => s!"{s.exit}:{encStr (toString (c % 1000))}"
+  ({ traps := r.traps, exit := r.exit, trace := lines.reverse ++ s.trace }, mergeDivert main r.divert)
+
+mutual
+def execCmd : Cmd → SS → SS × Option Divert
+  | .probe n, s => hook { s with trace := s!"{s.exit}:{encStr (toString n)}" :: s.trace } none
+  | .st n, s => hook { s with exit := n } none
+  | .raise sigs m, s =>
+    hook { s with traps := sigs.foldl catchSignal s.traps, exit := m } none
+  | .group l, s =>
+    let r := execList l s
+    hook r.1 r.2
+  | .call l, s =>
+    let r := execList l s
+    match r.2 with
+    | some (.ret st) => hook { r.1 with exit := st.getD r.1.exit } none
+    | d => hook r.1 d
+def execList : List Cmd → SS → SS × Option Divert
+  | [], s => (s, none)
+  | c :: rest, s =>
+    let r := execCmd c s
+    match r.2 with
+    | some d => (r.1, some d)
+    | none => execList rest r.1
+end
+
+def parseKind (k : String) : Option Nat :=
+  match k with
+  | "P" => some 0 | "R" => some 1 | "E" => some 2 | "F" => some 3 | "N" => some 4
+  | _ => none
+
+def parseSK (w : String) : Option (Nat × Nat) :=
+  match w.splitOn ":" with
+  | [s, k] => do pure ((← parseSig s), (← parseKind k))
+  | _ => none
+
+def multiLine (ws : List String) : String :=
+  match ws with
+  | l :: m :: sec :: sks =>
+    match l.toNat?, m.toNat?, sec.toNat?, sks.mapM parseSK with
+    | some layout, some mode, some second, some sks =>
+      if layout > 2 ∨ mode > 1 ∨ second > 1 ∨ sks.isEmpty then "bad-case\t-" else
+      let sigs := sks.map (·.1)
+      -- `trap` commands in the given order (each is a command: `$?` = 0 afterwards)
+      let traps : TrapMap := sks.foldl (fun t (sig, k) =>
+        set t sig { current := { action := .command (k * 1000 + sig + 200), origin := .user 0 } }) []
+      let raise1 := Cmd.raise sigs (if mode = 0 then 6 else 0)
+      let body := if layout = 2
+        then [Cmd.probe 1, .group [raise1, .probe 2], .st 5, .probe 3]
+        else [Cmd.probe 1, raise1, .probe 2, .st 5, .probe 3]
+      let prog := [Cmd.call body, .probe 4] ++ (if second = 1 then [Cmd.raise sigs 2] else [])
+        ++ [Cmd.probe 5, .probe 6]
+      let r := execList prog { traps := traps }
+      -- end of the script: `Env::apply_result`
+      let exit := match r.2 with
+        | some d => d.payload.getD r.1.exit
+        | none => r.1.exit
+      let o := s!"trace={",".intercalate r.1.trace.reverse} exit={exit}"
+      s!"{o}\t={o}"
+    | _, _, _, _ => "bad-case\t-"
+  | _ => "bad-case\t-"
+
 def runLine (line : String) : String :=
   match words line with
   | "script" :: ws => scriptLine ws
+  | "multi" :: ws => multiLine ws
   | _ => opsLine line
 
 def main : IO Unit := mainLoop runLine
